@@ -109,11 +109,26 @@ class _MP:
 
 
 def replay_builds(mask_names, n_layers, alts, program, orders, gs_ndarray=False):
-    """program: list of thread counts for successive builds on one object; orders: execution orders of the pool calls"""
+    """the witness schedule on the real code, for a generic geometry and for one whose layers lie at and above the lowest
+    laser guide star (the symbolic layer altitudes are free: decisions the code takes on them fork)"""
+    bad, detail = _replay_builds(mask_names, n_layers, alts, program, orders, gs_ndarray, high_layers=False)
+    if bad or not any(a > 0 for a in alts):
+        return bad, detail
+    bad2, detail2 = _replay_builds(mask_names, n_layers, alts, program, orders, gs_ndarray, high_layers=True)
+    if bad2:
+        detail2["geometry"] = "layers at and above the lowest laser guide star altitude"
+        return bad2, detail2
+    return bad, detail
+
+
+def _replay_builds(mask_names, n_layers, alts, program, orders, gs_ndarray=False, high_layers=False):
     sc = _sc()
     geo, masks = geometry(mask_names, n_layers, alts)
     vals = generic_vals(geo, 5)
     vals["alt"] = [float(a) for a in alts]
+    if high_layers:
+        lo = min(float(a) for a in alts if a > 0)
+        vals["h"] = [lo * (1.0 + 0.25 * k_) for k_ in range(len(vals["h"]))]
     ref, _ = concrete_matrix(vals, masks, threads=1)
     n = len(masks)
     gs = numpy.array([list(p) for p in vals["gs"]], dtype=float) if gs_ndarray else [list(p) for p in vals["gs"]]
